@@ -8,6 +8,9 @@ use crate::context::Context;
 
 use std::fmt;
 
+/// Nesting limit for the evaluation of expressions and of the definitions they refer to
+const MAX_EVALUATION_DEPTH: usize = 128;
+
 /// Assembly uses constant expressions to avoid copying magic numbers around.
 /// Expr represents these constant expressions.
 ///
@@ -110,17 +113,26 @@ impl Expr {
     }
 
     pub fn run(&self, constants: &dyn Context) -> Result<i64, ExprRunError> {
+        self.run_nested(constants, 0)
+    }
+
+    /// Evaluation with the nesting depth so far: cross linked equs would never end
+    fn run_nested(&self, constants: &dyn Context, depth: usize) -> Result<i64, ExprRunError> {
+        if depth > MAX_EVALUATION_DEPTH {
+            return Err(ExprRunError::ArithmeticError(
+                "expression nested too deeply (definition that refers to itself?)".to_string(),
+            ));
+        }
         match self {
             Expr::Ident(ident) => match constants.get_expr(ident) {
                 Some(Expr::Const(address)) => Ok(address),
-                // TODO: check recursion for cross linked equs and other labels
-                Some(expr) => expr.run(constants),
+                Some(expr) => expr.run_nested(constants, depth + 1),
                 None => Err(ExprRunError::MissingIdentifier(ident.clone())),
             },
             Expr::Const(value) => Ok(*value),
             Expr::Func(ident, argument) => {
                 if let Expr::Ident(name) = &**ident {
-                    let value = argument.run(constants)?;
+                    let value = argument.run_nested(constants, depth + 1)?;
                     let ret_val = match name.to_lowercase().as_str() {
                         "low" => (value as u64 & 0xff) as i64,
                         "high" | "byte2" => ((value as u64 & 0xff00) >> 8) as i64,
@@ -159,8 +171,8 @@ impl Expr {
                 }
             }
             Expr::Binary(binary) => {
-                let left = binary.left.run(constants)?;
-                let right = binary.right.run(constants)?;
+                let left = binary.left.run_nested(constants, depth + 1)?;
+                let right = binary.right.run_nested(constants, depth + 1)?;
                 match binary.operator {
                     BinaryOperator::Add => match left.checked_add(right) {
                         Some(value) => Ok(value),
@@ -242,7 +254,7 @@ impl Expr {
             }
             Expr::Unary(unary) => match unary.operator {
                 UnaryOperator::Minus => {
-                    let value = unary.expr.run(constants)?;
+                    let value = unary.expr.run_nested(constants, depth + 1)?;
                     match value.checked_neg() {
                         Some(value) => Ok(value),
                         None => Err(ExprRunError::ArithmeticError(format!(
@@ -252,11 +264,11 @@ impl Expr {
                     }
                 }
                 UnaryOperator::BitwiseNot => {
-                    let value = unary.expr.run(constants)?;
+                    let value = unary.expr.run_nested(constants, depth + 1)?;
                     Ok(!value)
                 }
                 UnaryOperator::LogicalNot => {
-                    let value = unary.expr.run(constants)?;
+                    let value = unary.expr.run_nested(constants, depth + 1)?;
                     Ok((value == 0) as i64)
                 }
             },
